@@ -429,8 +429,8 @@ func nonNilValue(v ssa.Value, depth int) bool {
 // pass one matching sat, or nil. Paths ending in panic are ignored.
 func pathSearch(start ssa.Instruction, sat, target func(ssa.Instruction) bool) *pathResult {
 	type state struct {
-		b    *ssa.BasicBlock
-		asg  string
+		b   *ssa.BasicBlock
+		asg string
 	}
 	flagPhi := func(p *ssa.Phi) bool {
 		for _, e := range p.Edges {
